@@ -98,7 +98,28 @@ Proof. vm_compute. reflexivity. Qed.
 
 (* number tree find on a looping path *)
 Example c4_ex_nn_find_loop :
-  fst (c4_nn_find 4 [(1, mkC4nnode 0 false [2; 3] (Some 1%nat)); (2, mkC4nnode 2 true [] None); (3, mkC4nnode 0 false [3] (Some 0%nat))] 1 [] 0) = C4fLoop.
+  fst (c4_nn_find 4 [(1, mkC4nnode 0 false [2; 3] (Some 1%nat) 0 0); (2, mkC4nnode 2 true [] None 0 0); (3, mkC4nnode 0 false [3] (Some 0%nat) 0 0)] 1 [] 0) = C4fLoop.
+Proof. vm_compute. reflexivity. Qed.
+
+(* regression for D-C04-nntree-dag.  The loop of NNTreeImpl::repair() before the fix was the plain iteration: 1024 leaf
+   entries on the 11-node tree whose levels list the next level twice, 2^d in general.  The repaired loop enters the
+   leaf once, tolerates 1000 re-entries and gives up, with a warning, at the next one - on 11 nodes and on 41 nodes
+   (where the old loop would enter 2^40 leaves); validate() ends at the first re-entry. *)
+Example c4_ex_nn_repair_old_loop : c4i_leaves (fst (c4_nn_iter (20 * 400) (c4_nn_dag 10 1) 1)) = 1024.
+Proof. vm_compute. reflexivity. Qed.
+Example c4_ex_nn_repair_fixed :
+  (let st := fst (c4_nn_repair (20 * 400) (c4_nn_dag 10 1) 1) in
+   c4rp_leaves st = 1002 /\ c4rp_reent st = 1001 /\ c4rp_gaveup st = true /\ c4rp_warns st = 1 /\ c4rp_distinct st = 1) /\
+  (let r := c4_nn_repair (400 * 400) (c4_nn_dag 40 1) 1 in
+   c4rp_leaves (fst r) = 1002 /\ c4rp_gaveup (fst r) = true /\ snd r = C4wStopped).
+Proof. vm_compute. repeat split; reflexivity. Qed.
+Example c4_ex_nn_validate_stops :
+  let v := c4_nn_validate (20 * 400) (c4_nn_dag 40 1) 1 in c4v_leaves (fst v) = 2 /\ c4v_err (fst v) = true /\ snd v = C4wStopped.
+Proof. vm_compute. repeat split; reflexivity. Qed.
+(* a proper tree is validated without repair and every leaf is entered once *)
+Example c4_ex_nn_open_proper :
+  c4_nn_open 100 [(1, mkC4nnode 0 false [2; 3] None 0 0); (2, mkC4nnode 4 true [] None 10 11); (3, mkC4nnode 2 true [] None 20 20)] 1
+  = ((mkC4vst false 20 [3; 2] 2 0 false, C4wDone), None).
 Proof. vm_compute. reflexivity. Qed.
 
 (* parser: 500 nested containers are accepted with the default limit 499, 501 are refused *)
